@@ -49,6 +49,7 @@ class Comparer(object):
         self.pairs = []          # (p_occ, q_occ)
         self.aliases = []        # (q scope occ of the alias target, value node, inserted stmt)
         self.hoisted_uses = []   # (p constant node, q name node)
+        self._in_class_body = {}
         self.problems = []
 
     # ---- structural walk
@@ -64,6 +65,8 @@ class Comparer(object):
             self.aliases.append(s)
         rest = qb[:i0] + qb[i0 + k:]
         for a, b in zip(pb, rest):
+            if where == 'ClassDef':
+                self._in_class_body[id(a)] = True
             self.node(a, b)
 
     def ident(self, pn, qn, field, index=None):
@@ -80,8 +83,10 @@ class Comparer(object):
             return
         self.pairs.append((po, qo))
 
-    def node(self, p, q):
+    def node(self, p, q, no_hoist=False):
         if isinstance(p, ast.Constant) and isinstance(q, ast.Name) and isinstance(q.ctx, ast.Load):
+            if no_hoist == 'deep' or (no_hoist == 'shallow' and isinstance(p.value, str)) or no_hoist == 'shallow-any':
+                raise Mismatch('literal %r replaced by a name where that changes the meaning (pattern / __slots__ / f-string text / literal statement)' % (p.value,))
             self.hoisted_uses.append((p, q))
             return
         if type(p) is not type(q):
@@ -120,16 +125,28 @@ class Comparer(object):
                 for i in range(len(a)):
                     self.ident(p, q, 'names', i)
                 continue
+            # positions where a literal must stay a literal
+            nh = 'deep' if no_hoist == 'deep' else False
+            if isinstance(p, ast.match_case) and f == 'pattern':
+                nh = 'deep'
+            if isinstance(p, ast.JoinedStr) and f == 'values':
+                nh = 'joined'
+            if isinstance(p, ast.Expr) and f == 'value':
+                nh = 'shallow'           # a string statement (docstring position) must stay a string
+            if (isinstance(p, ast.Assign) and f == 'value' and self._in_class_body.get(id(p))
+                    and any(isinstance(t, ast.Name) and t.id == '__slots__' for t in p.targets)):
+                nh = 'deep'
             if isinstance(a, ast.AST):
                 if not isinstance(b, ast.AST):
                     raise Mismatch('%s.%s missing' % (type(p).__name__, f))
-                self.node(a, b)
+                self.node(a, b, nh if nh in ('deep', 'shallow') else False)
             elif isinstance(a, list):
                 if not isinstance(b, list) or len(a) != len(b):
                     raise Mismatch('%s.%s list length %d -> %s' % (type(p).__name__, f, len(a), len(b) if isinstance(b, list) else b))
                 for x, y in zip(a, b):
                     if isinstance(x, ast.AST):
-                        self.node(x, y)
+                        # direct Constant children of a JoinedStr are literal text; FormattedValue subtrees are expressions
+                        self.node(x, y, 'deep' if nh == 'deep' else ('shallow-any' if (nh == 'joined' and isinstance(x, ast.Constant)) else False))
                     elif x != y:
                         raise Mismatch('%s.%s element %r -> %r' % (type(p).__name__, f, x, y))
             elif isinstance(a, str) and f in ('id', 'name', 'arg', 'rest', 'asname'):
@@ -225,6 +242,107 @@ class Comparer(object):
             if single and q_bind_counts.get((r, n), 0) != 1:
                 probs.append('alias %s is bound %d times in its scope' % (n, q_bind_counts.get((r, n), 0)))
         return probs
+
+
+def _documented_in_place(arg_node, func):
+    args = func.args
+    allargs = list(getattr(args, 'posonlyargs', [])) + args.args
+    if isinstance(func, ast.Lambda):
+        pass
+    elif getattr(func, '_pmv_in_class', False) and allargs and arg_node is allargs[0]:
+        decs = func.decorator_list
+        if len(decs) == 0 or (len(decs) == 1 and isinstance(decs[0], ast.Name) and decs[0].id == 'classmethod'):
+            return True
+    if args.vararg is arg_node or args.kwarg is arg_node:
+        return True
+    if arg_node in getattr(args, 'posonlyargs', []):
+        return True
+    return False
+
+
+def interface_problems(src, out, rename_globals):
+    """C04: names through which other code reaches into the module keep their spelling."""
+    try:
+        p, q = ast.parse(src), ast.parse(out)
+    except (SyntaxError, ValueError):
+        return []
+    c = Comparer(p, q)
+    try:
+        c.body(p.body, q.body, 'Module')
+    except Mismatch as e:
+        return ['structure: %s' % e]
+    except RecursionError:
+        return []
+    probs = []
+    # which functions are methods: their enclosing scope is a class body (also when nested in if/with/try there)
+    def mark(node, in_class):
+        for ch in ast.iter_child_nodes(node):
+            if isinstance(ch, (ast.FunctionDef, ast.AsyncFunctionDef)):
+                ch._pmv_in_class = in_class
+                mark(ch, False)
+            elif isinstance(ch, ast.ClassDef):
+                mark(ch, True)
+            elif isinstance(ch, ast.Lambda):
+                mark(ch, False)
+            else:
+                mark(ch, in_class)
+    mark(p, False)
+    owner = {}
+    for n in ast.walk(p):
+        if isinstance(n, (ast.FunctionDef, ast.AsyncFunctionDef, ast.Lambda)):
+            a = n.args
+            for x in list(getattr(a, 'posonlyargs', [])) + a.args + a.kwonlyargs + [y for y in (a.vararg, a.kwarg) if y]:
+                owner[id(x)] = n
+    p_mod_bound = scopes.module_bound_names(c.p_root)
+    for po, qo in c.pairs:
+        if po.name == qo.name:
+            continue
+        r = scopes.resolve(po.scope, po.name)
+        if po.name.startswith('__') and po.name.endswith('__'):
+            probs.append('double-underscore name %s renamed to %s' % (po.name, qo.name))
+        elif r[0] == 'class':
+            probs.append('name %s bound in a class body renamed to %s' % (po.name, qo.name))
+        elif isinstance(po.node, ast.arg) and po.field == 'arg':
+            f = owner.get(id(po.node))
+            if f is not None and not _documented_in_place(po.node, f):
+                probs.append('keyword-passable parameter %s renamed to %s in the signature' % (po.name, qo.name))
+        elif r[0] == 'global' and po.name not in p_mod_bound:
+            al = [s for s in c.aliases if s.targets[0].id == qo.name and isinstance(s.value, ast.Name) and s.value.id == po.name]
+            if not al:
+                probs.append('name %s, used but never bound, renamed to %s' % (po.name, qo.name))
+        elif r[0] == 'global' and not rename_globals:
+            probs.append('module-level name %s renamed to %s although rename_globals is off' % (po.name, qo.name))
+    q_mod_bound = scopes.module_bound_names(c.q_root)
+    if not rename_globals:
+        for n in sorted(p_mod_bound - q_mod_bound):
+            probs.append('module-level name %s disappeared' % n)
+        for n in sorted(q_mod_bound - p_mod_bound):
+            if not n.startswith('_'):
+                probs.append('new module-level name %s does not start with an underscore' % n)
+    return probs
+
+
+def preserved_problems(src, out, names, which):
+    """C10: every occurrence of a listed name bound in a function scope (locals) / at module level (globals) keeps its spelling."""
+    try:
+        p, q = ast.parse(src), ast.parse(out)
+    except (SyntaxError, ValueError):
+        return []
+    c = Comparer(p, q)
+    try:
+        c.body(p.body, q.body, 'Module')
+    except Mismatch as e:
+        return ['structure: %s' % e]
+    except RecursionError:
+        return []
+    probs = []
+    for po, qo in c.pairs:
+        if po.name in names and po.name != qo.name:
+            r = home(scopes.resolve(po.scope, po.name))
+            is_global = r[0] == 'global'
+            if (which == 'globals' and is_global) or (which == 'locals' and not is_global):
+                probs.append('preserved name %s renamed to %s' % (po.name, qo.name))
+    return probs
 
 
 def check(src, out):
